@@ -367,7 +367,7 @@ def _run(pid, tier, seed, prop, JOBS, root, t0):
     for l in lines:
         say(l)
     wall = time.time() - t0
-    if exit_code != 2 and not os.environ.get("TJV_ONLY"):      # a debugging subset must not overwrite the evidence of a full run
+    if exit_code != 2 and not os.environ.get("TJV_ONLY") and not os.environ.get("TJV_NO_EVIDENCE"):      # a debugging subset must not overwrite the evidence of a full run
         write_evidence(pid, tier, seed, prop, results, total, discharged, wall, len(violations) + len(pre_viol),
                        known_hits, pre_msgs, other_fail)
     say("%s %s: %s  (%d obligations, %d discharged, %d jobs, %.1fs)" % (
